@@ -6,17 +6,27 @@ use std::path::Path;
 /// `ShmWriter::new`, then close the descriptor that `mmap_segment_at` leaves open (the mapping
 /// stays valid). The daemon creates one writer per process life, so the leak is harmless there, but
 /// a harness that creates tens of thousands of writers per process runs out of descriptors.
+///
+/// The leaked descriptor is recognised as: opened read-write on `path` (readers open read-only,
+/// `wipe` closes its own descriptor) among the descriptors at or above the lowest one that was
+/// free before the call.
 pub fn new_writer(path: &Path) -> std::io::Result<ShmWriter> {
-    // lowest free descriptor = the one the writer's open() will get
     let probe = unsafe { libc::dup(0) };
     if probe >= 0 {
         unsafe { libc::close(probe) };
     }
     let w = ShmWriter::new(path)?;
     if probe >= 0 {
-        if let Ok(target) = std::fs::read_link(format!("/proc/self/fd/{}", probe)) {
-            if target == path {
-                unsafe { libc::close(probe) };
+        for fd in probe..probe + 24 {
+            let fl = unsafe { libc::fcntl(fd, libc::F_GETFL) };
+            if fl < 0 || (fl & libc::O_ACCMODE) != libc::O_RDWR {
+                continue;
+            }
+            if let Ok(target) = std::fs::read_link(format!("/proc/self/fd/{}", fd)) {
+                if target == path {
+                    unsafe { libc::close(fd) };
+                    break;
+                }
             }
         }
     }
